@@ -4,7 +4,7 @@ import re
 
 from ..mir import Mir, Exprs, canon, strip_transparent, Call
 from ..report import Result, finish
-from ..conflict import find_stage, check_writer, check_eq
+from ..conflict import value_projections, find_stage, check_writer, check_eq
 
 
 def param_of_type(fn, suffix, ref=None):
@@ -48,7 +48,7 @@ def check(ctx):
         res.violate(FIELDS, "lookup-key", w.where, "the lookup key must be (own state parameter, own look-ahead parameter) = %s, found %s" % (want_key, getattr(st, "key_expr", None)))
     expect = {
         "state_index": "param%d" % sp,
-        "items": "tuple{(HashMap::get(param1.%s, %s) as Some).0.0, param%d}" % (st.map_field, want_key, ip),
+        "items": "tuple{(HashMap::get(param1.%s, %s) as Some).0%s, param%d}" % (st.map_field, want_key, value_projections(st)[0], ip),
     }
     for f, wv in expect.items():
         got = canon(fields[f]) if f in fields else None
@@ -114,6 +114,11 @@ def check(ctx):
         else:
             fsp = param_of_type(fn, "::StateIndex")
             ok = bool(fsp) and bool(re.match(r"^\(Iterator@\w+::next\(IntoIterator@\w+::into_iter\((?:slice::iter\()?(?:Deref@Oset::deref\()?(?:Deref@Oset::deref\()?param1\.(\w+)\.states\)?\[param%d\.0\]\.items\)?\)?\)\) as Some\)\.0$" % fsp[0], got))
+            if not ok:
+                # ... or over the items of a `&State` parameter that every caller fills with the state paired with the index
+                from ..conflict import state_param_is_own_state
+                mp = re.match(r"^\(Iterator@\w+::next\(IntoIterator@\w+::into_iter\((?:slice::iter\()?(?:Deref@Oset::deref\()?param(\d+)\.items\)?\)?\)\) as Some\)\.0$", got)
+                ok = bool(mp) and fn.inputs[int(mp.group(1)) - 1]["head"].endswith("::State") and state_param_is_own_state(st, fn, int(mp.group(1)))
             msg = "the item handed down must be the loop variable of an iteration over states[<own state parameter>].items of the automaton in the context"
         res.inst(FWD, key, c.where, True, got)
         if not ok:
